@@ -138,6 +138,7 @@ def op_strategies(name_pool=None):
     S["frame_add_col"] = fixed(op="frame_add_col", t=IDX, name=st.sampled_from(["d", "e", "f", "ü2"]), seed=st.integers(0, 9), how=HOW)
     S["frame_add_rows"] = fixed(op="frame_add_rows", t=IDX, n=st.integers(1, 3), seed=st.integers(0, 9), how=HOW)
     S["prop_set"] = fixed(op="prop_set", t=IDX, vals=prop_vals(), how=HOW)
+    S["prop_set_other"] = fixed(op="prop_set_other", t=IDX, vals=prop_vals(), seed=st.integers(0, 5), how=HOW)
     S["prop_ext"] = fixed(op="prop_ext", t=IDX, vals=prop_vals(), how=HOW)
     S["prop_clear"] = fixed(op="prop_clear", t=IDX, via=st.sampled_from(["none", "empty", "delete"]), how=HOW)
 
